@@ -40,7 +40,9 @@ import (
 //
 // For a rule with a backend (`forward_to`) the URL the proxy would send the request to is reported under "up":
 // scheme, host, the path as written into the request line (EscapedPath) and the raw query of what
-// Backend.CreateURL / URLRewriter.Rewrite produce from the request URL after ruleImpl.Execute.
+// Backend.CreateURL / URLRewriter.Rewrite produce from the request URL after ruleImpl.Execute. For cases carrying
+// `"proxy": true` such a lookup is made a third time through the request context of the proxy service, whose Finalize
+// writes the request to a recording upstream connection: "sent" is the request target found there (repo_proxy.go).
 
 func init() { families["repo"] = runRepo }
 
@@ -310,6 +312,7 @@ func runRepo(c map[string]any) (any, error) {
 	proc := rules.NewRuleSetProcessor(repo, factory)
 	out := []any{}
 	bothContexts := getBool(c, "envoy")
+	throughProxy := getBool(c, "proxy") // see repo_proxy.go
 
 	for _, o := range getArr(c, "ops") {
 		op := obj(o)
@@ -336,6 +339,17 @@ func runRepo(c map[string]any) (any, error) {
 			res := serveLookup(repo, requestcontext.New(req), func(ctx heimdall.Context) string {
 				return ctx.(*requestcontext.RequestContext).UpstreamHeaders().Get("X-Verif-Ver") //nolint:forcetypeassert
 			})
+			if throughProxy {
+				sent, written, err := proxySent(repo, op)
+				if err != nil {
+					return nil, err
+				}
+
+				if written {
+					res["sent"] = outStr(sent)
+				}
+			}
+
 			if bothContexts {
 				res["envoy"] = envoyLookup(repo, op)
 			}
